@@ -270,9 +270,47 @@ def check(case, ctx):
                     % (type(e).__name__, str(e)[:200], text, case['model']))
 
 
+EXCS = ['ValueError', 'KeyError', 'TypeError', 'RuntimeError', 'AttributeError',
+        'IndexError', 'ZeroDivisionError', 'LookupError', 'ArithmeticError', 'OSError',
+        'AssertionError', 'NotImplementedError', 'UnicodeError', 'StopIteration', 'Exception']
+
+
+def enum_raising_user_code(shard, nshards):
+    """User code that raises: every string-like kind / ordinary class x every
+    exception class x every position."""
+    i = 0
+    for exc in EXCS:
+        for kind in ('strsub', 'userstring', 'ystring', 'obj'):
+            if kind == 'obj':
+                cls = {'name': 'R', 'kind': 'obj', 'bases': [], 'params': [{'name': 'a', 'type': 'int'}],
+                       'init_raises': ['neg', 'a', exc]}
+                bad, good = '{a: -1}', '{a: 1}'
+            else:
+                cls = {'name': 'R', 'kind': kind, 'init_raises': ['startswith', 'value', 'bad', exc]}
+                bad, good = 'bad value', 'fine'
+            r = ['ref', 'R']
+            holder = {'name': 'H', 'kind': 'obj', 'bases': [], 'params': [
+                {'name': 'x', 'type': r}, {'name': 'y', 'type': ['opt', r], 'default': ['none']}]}
+            variants = [(r, bad), (['list', r], '[%s, %s]' % (good, bad)),
+                        (['dict', 'str', r], '{k: %s, j: %s}' % (good, bad)),
+                        (['ref', 'H'], '{x: %s, y: %s}' % (good, bad)),
+                        (['union', r, 'int'], bad), (['list', ['opt', r]], '[~, %s]' % bad)]
+            if kind != 'obj':
+                variants.append((['dict', r, 'int'], '{%s: 1}' % bad))
+            for dt, text in variants:
+                if i % nshards == shard:
+                    yield {'model': {'classes': [cls, holder], 'order': ['R', 'H'], 'doc_type': dt},
+                           'text': text, 'src': 'raising_user_code'}
+                i += 1
+
+
 def phases(tier):
     n = 250 if tier != 'thorough' else 5000
-    ph = [HypPhase('models_x_texts', cases(), n)]
+    from yv.runner import EnumPhase
+    ph = [HypPhase('models_x_texts', cases(), n),
+          EnumPhase('raising_user_code', enum_raising_user_code,
+                    '3 string-like kinds and an ordinary class whose constructor raises, x %d '
+                    'exception classes x 6-7 positions' % len(EXCS))]
     if tier == 'thorough':
         from yv import fuzzphase
         ph.append(fuzzphase.fuzz_phase('C08', 400000))
